@@ -112,6 +112,13 @@ class Spec:
         self.tuple_fields = {}            # (record type, constant index) -> (template, type): rows stored as Python lists
         self.index_methods = {}           # container type -> (template over {0}=container,{1}=key, key type, result type)
         self.copy_template = {}           # value type -> what `x.copy()` is on the model's values (default: the identity)
+        # --- bindings added for the SrcOrn group (all empty by default: nothing changes for specs that do not set them)
+        self.binops = {}                  # (left type, ast op name, right type) -> (template over {0},{1}, result type)
+        self.truthy = {}                  # type -> template of `bool(x)` (a value of that type used as a condition)
+        self.coercions = {}               # (from type, to type) -> template: representation changes of the model (Note into note-or-melody)
+        self.sums = {}                    # sum type -> {python class name: (match pattern over {0}, payload type)}  (isinstance tests)
+        self.store_templates = {}         # (type, attr) -> (template over {0}=object,{1}=value, value type, result type): `x.attr = v` on a non-record
+        self.fraction_ctors = set()       # names bound to `fractions.Fraction` in the translated module
 
 
 class FunTr:
@@ -124,6 +131,8 @@ class FunTr:
         self.tyvars = {}           # marker -> resolved element type of an empty list literal
         self.in_loop = 0
         self.consts = {}           # parameters the spec fixes to a literal (defaults that the tie does not vary)
+        self.join_ifs = False      # entry option: an `if` without return / raise joins its branches instead of duplicating the rest
+        self.cur_target = None     # name assigned by the statement being translated (`x = f(x, …)` with an owned parameter)
 
     def fresh(self, base='t'):
         self.n += 1
@@ -189,8 +198,16 @@ class FunTr:
             raise Untranslatable('heterogeneous list')
         return '[' + ', '.join(p[0] for p in parts) + ']', f'List {paren(lean_ty(parts[0][1]))}'
 
+    def truth(self, t, ty):
+        """`t : ty` used as a condition: a Bool as it is, other types only through a `truthy` binding of the spec"""
+        if ty != 'Bool' and ty in self.spec.truthy:
+            return self.spec.truthy[ty].format(t), 'Bool'
+        return t, ty
+
     def e_UnaryOp(self, e, env, B):
         t, ty = self.expr(e.operand, env, B)
+        if isinstance(e.op, ast.Not):
+            t, ty = self.truth(t, ty)
         if isinstance(e.op, ast.USub) and ty == 'Int':
             return f'(-{t})', 'Int'
         if isinstance(e.op, ast.Not) and ty == 'Bool':
@@ -201,13 +218,13 @@ class FunTr:
 
     def e_BoolOp(self, e, env, B):
         op = '&&' if isinstance(e.op, ast.And) else '||'
-        first, ty = self.expr(e.values[0], env, B)
+        first, ty = self.truth(*self.expr(e.values[0], env, B))
         if ty != 'Bool':
             raise Untranslatable('and/or on non-bool')
         terms = [first]
         for v in e.values[1:]:
             Bi = []
-            t, ty = self.expr(v, env, Bi)
+            t, ty = self.truth(*self.expr(v, env, Bi))
             if Bi:
                 raise Untranslatable('short-circuit operand that can raise')
             if ty != 'Bool':
@@ -277,6 +294,19 @@ class FunTr:
             return f'({a} ++ {b})', aty
         if (aty, op) in self.spec.operators and bty == aty:
             return self.call_fun(self.spec.operators[(aty, op)], [(a, aty), (b, bty)], B)
+        if op == 'Div' and 'Rat' in (aty, bty) and {aty, bty} <= {'Rat', 'Int'}:
+            # Fraction / Fraction-or-int: exact, ZeroDivisionError on 0
+            a = a if aty == 'Rat' else f'(({a} : Int) : Rat)'
+            b = b if bty == 'Rat' else f'(({b} : Int) : Rat)'
+            if self.posint(e.right):
+                return f'({a} / {b})', 'Rat'
+            return self.bind(B, f'Py.fracDiv {a} {b}', 'Res Rat')
+        if op == 'Div' and aty == 'Int' and bty == 'Int' and self.posint(e.right):
+            # int / int is a float; admitted only under `int(…)` (see e_Call), as the pair (dividend, divisor)
+            return f'({a}, {b})', 'IntQuot'
+        if (aty, op, bty) in self.spec.binops:
+            tmpl, rty = self.spec.binops[(aty, op, bty)]
+            return self.bind(B, tmpl.format(a, b), rty)
         raise Untranslatable(f'{aty} {op} {bty} at line {e.lineno}')
 
     CMP = {'Eq': '=', 'NotEq': '≠', 'Lt': '<', 'LtE': '≤', 'Gt': '>', 'GtE': '≥'}
@@ -317,6 +347,9 @@ class FunTr:
         if op in ('In', 'NotIn'):
             if aty == 'Int' and bty in LIST_TYPES + ('Set Int',):
                 r = f'(Py.isIn {a} {b})'
+                return (r if op == 'In' else f'(!{r})'), 'Bool'
+            if aty == 'Str' and bty == 'List Str':
+                r = f'({b}.contains {a})'
                 return (r if op == 'In' else f'(!{r})'), 'Bool'
             raise Untranslatable(f'{aty} in {bty}')
         if op not in self.CMP:
@@ -439,6 +472,11 @@ class FunTr:
                 if ty != 'Int':
                     raise Untranslatable('abs of non-int')
                 return f'(Py.abs {t})', 'Int'
+            if n == 'range' and len(e.args) == 3:
+                xs = [self.expr(a, env, B) for a in e.args]
+                if any(x[1] != 'Int' for x in xs):
+                    raise Untranslatable('range of non-int')
+                return self.bind(B, f'Py.rangeStep {xs[0][0]} {xs[1][0]} {xs[2][0]}', 'Res (List Int)')   # ValueError on step 0
             if n == 'range' and len(e.args) in (1, 2):
                 xs = [self.expr(a, env, B) for a in e.args]
                 if any(x[1] != 'Int' for x in xs):
@@ -448,11 +486,54 @@ class FunTr:
             if n == 'isinstance' and len(e.args) == 2:
                 t, ty = self.expr(e.args[0], env, B)
                 cls = ast.unparse(e.args[1])
+                if ty in self.spec.sums:
+                    # decided at run time; admitted only as the test of an `if` (see `block`), where it becomes a `match`
+                    raise Untranslatable(f'isinstance on the sum type {ty} outside the test of an if, at line {e.lineno}')
                 self.assumed.append(f'line {e.lineno}: isinstance({ast.unparse(e.args[0])}, {cls}) with declared type {ty}')
                 return ('true' if ty == cls else 'false'), 'Bool'
+            if n in self.spec.fraction_ctors and len(e.args) in (1, 2) and not e.keywords:
+                # Fraction(a) / Fraction(a, b) on ints and fractions: a / b, ZeroDivisionError on b = 0
+                lits = [a.value if isinstance(a, ast.Constant) and isinstance(a.value, int) and not isinstance(a.value, bool)
+                        else None for a in e.args]
+                if len(lits) == 2 and None not in lits and lits[1] != 0:
+                    return f'(({lits[0]} : Rat) / ({lits[1]} : Rat))', 'Rat'
+                xs = [self.expr(a, env, B) for a in e.args]
+                if any(x[1] not in ('Int', 'Rat') for x in xs):
+                    raise Untranslatable(f'{n}({", ".join(x[1] for x in xs)})')
+                xs = [x[0] if x[1] == 'Rat' else f'(({x[0]} : Int) : Rat)' for x in xs]
+                if len(xs) == 1:
+                    return xs[0], 'Rat'
+                return self.bind(B, f'Py.fracDiv {xs[0]} {xs[1]}', 'Res Rat')
+            if n == 'int' and len(e.args) == 1 and not e.keywords:
+                t, ty = self.expr(e.args[0], env, B)
+                if ty == 'Int':
+                    return t, 'Int'
+                if ty == 'Rat':
+                    return f'(Py.intOfFrac {t})', 'Int'          # truncation towards zero
+                if ty == 'IntQuot':
+                    self.assumed.append(f'line {e.lineno}: int(a / b) on ints is read as the truncated exact quotient '
+                                        f'(the float quotient is exact enough for |a| < 2**40)')
+                    return f'(Py.intOfQuot {t})', 'Int'
+                raise Untranslatable(f'int({ty})')
+            if n == 'min' and len(e.args) == 2 and not e.keywords:
+                (a, aty), (b, bty) = [self.expr(x, env, B) for x in e.args]
+                if not {aty, bty} <= {'Int', 'Rat'}:
+                    raise Untranslatable(f'min({aty}, {bty})')
+                rty = 'Int' if aty == bty == 'Int' else 'Rat'
+                if rty == 'Rat':
+                    a = a if aty == 'Rat' else f'(({a} : Int) : Rat)'
+                    b = b if bty == 'Rat' else f'(({b} : Int) : Rat)'
+                return f'(if {b} < {a} then {b} else {a})', rty     # the first argument unless the second is smaller
             if n in self.spec.ctors:
                 return self.ctor(n, e, env, B)
             if n in self.spec.funs:
+                owned = self.spec.funs[n].get('owned', ())
+                for (pn, _), a in zip(self.spec.funs[n]['params'], e.args):
+                    # the callee stores into this argument: only `x = f(x, …)` on a fresh local is a functional update
+                    if pn in owned and not (isinstance(a, ast.Name) and ident(a.id) in self.fresh_vars(env)
+                                            and self.cur_target == a.id):
+                        raise Untranslatable(f'{n} stores into its argument `{pn}`; the call at line {e.lineno} is not of '
+                                             f'the form `x = {n}(x, …)` on a fresh local')
                 args = [self.expr(a, env, B) for a in e.args]
                 if e.keywords:
                     pn = [p[0] for p in self.spec.funs[n]['params']][len(args):]
@@ -602,6 +683,8 @@ class FunTr:
             return f'(({t} : Int) : Rat)'
         if want == 'Bool' and ty == 'Int':
             return f'(decide ({t} ≠ (0 : Int)))'
+        if (ty, want) in self.spec.coercions:
+            return self.spec.coercions[(ty, want)].format(t)
         if ' × ' in want and ' × ' in ty and t.startswith('(') and self.last_tuple and self.last_tuple[0] == t:
             ws = split_prod(want)
             parts = self.last_tuple[1]
@@ -682,6 +765,78 @@ class FunTr:
             return test.left.id, isinstance(test.ops[0], ast.Is)
         return None
 
+    def sum_test(self, test, env):
+        """`isinstance(x, C)` / `not isinstance(x, C)` on a local of a declared sum type -> (name, class, True if positive)"""
+        positive = True
+        if isinstance(test, ast.UnaryOp) and isinstance(test.op, ast.Not):
+            test, positive = test.operand, False
+        if isinstance(test, ast.Call) and isinstance(test.func, ast.Name) and test.func.id == 'isinstance' \
+                and len(test.args) == 2 and not test.keywords and isinstance(test.args[0], ast.Name):
+            x, cls = test.args[0].id, ast.unparse(test.args[1])
+            if x not in self.consts and env.get(x) in self.spec.sums and cls in self.spec.sums[env[x]]:
+                return x, cls, positive
+        return None
+
+    def try_join(self, s, rest, env, k):
+        """an `if` whose branches fall through (no return / raise / break / continue / assert): translate it as an
+        expression giving the variables it assigns, and translate the rest once.  None when the branches leave a
+        variable with types that no implicit conversion joins, or introduce new names (then the rest is duplicated)."""
+        inner = list(s.body) + list(s.orelse)
+        if any(isinstance(x, (ast.Return, ast.Raise, ast.Break, ast.Continue, ast.Assert)) for st_ in inner for x in ast.walk(st_)):
+            return None
+        names = self.assigned_names(inner)
+        local = [n for n in names if n not in env]       # names that only exist inside a branch …
+        if any(isinstance(x, ast.Name) and x.id in local for st_ in rest for x in ast.walk(st_)):
+            return None                                  # … must not be read after the `if`
+        names = [n for n in names if n in env]
+        if not names:
+            return None
+        saved = (self.n, len(self.assumed), dict(self.tyvars), self.no_join if hasattr(self, 'no_join') else None)
+
+        def run(types):
+            outs = []
+
+            def kj(env_):
+                outs.append(env_)
+                if types is None:
+                    return ('ret', '()')
+                parts = [self.coerce(ident(n), env_[n], types[n], f'variable {n} after the if at line {s.lineno}') for n in names]
+                return ('ret', '(' + ', '.join(parts) + ')' if len(parts) != 1 else parts[0])
+            self.no_join = s
+            try:
+                node = self.block([s], env, kj)
+            finally:
+                self.no_join = saved[3]
+            return node, outs
+        _, outs = run(None)
+        self.n = saved[0]
+        del self.assumed[saved[1]:]
+        self.tyvars = saved[2]
+        types = {}
+        for n in names:
+            cands = []
+            for o in outs:
+                if o[n] not in cands:
+                    cands.append(o[n])
+            pick = None
+            for c in cands:
+                try:
+                    for t in cands:
+                        self.coerce('x', t, c)
+                    pick = c
+                    break
+                except Untranslatable:
+                    continue
+            if pick is None or '⟦' in pick:
+                return None
+            types[n] = pick
+        node, outs = run(types)
+        fr = set(self.fresh_vars(env)) - {ident(n) for n in names}
+        fr |= {ident(n) for n in names if all(ident(n) in self.fresh_vars(o) for o in outs)}
+        env2 = {**self.drop_const(env, names), **types, '__fresh__': frozenset(fr)}
+        st = self.fresh('st') if len(names) != 1 else ident(names[0])
+        return ('join', st, [(ident(n), types[n]) for n in names], node, self.block(rest, env2, k))
+
     def block(self, body, env, k=None):
         """statement list -> tree; `k(env)` is the node for falling off the end (default: `return None`)"""
         if k is None:
@@ -696,9 +851,21 @@ class FunTr:
             return k(env)
         if isinstance(s, ast.Break) and self.in_loop:
             return k({**env, '__break__': True})
+        if isinstance(s, ast.Assert):
+            B = []
+            c, cty = self.truth(*self.expr(s.test, env, B))
+            if cty != 'Bool':
+                raise Untranslatable(f'assertion of type {cty} at line {s.lineno}')
+            if s.msg is not None:
+                self.assumed.append(f'line {s.lineno}: building the message of the failing assertion does not raise')
+            return self.wrap(B, ('if', c, self.block(rest, env, k), ('raise', 'assertion')))
         if isinstance(s, ast.Assign) and len(s.targets) == 1 and isinstance(s.targets[0], ast.Name):
             B = []
-            t, ty = self.expr(s.value, env, B)
+            self.cur_target = s.targets[0].id
+            try:
+                t, ty = self.expr(s.value, env, B)
+            finally:
+                self.cur_target = None
             name = s.targets[0].id
             if ty == 'None':
                 t = '()'
@@ -734,10 +901,21 @@ class FunTr:
             if isinstance(tgt, ast.Attribute) and isinstance(tgt.value, ast.Name) and tgt.value.id in env:
                 x = tgt.value.id
                 xty = env[x]
-                if (xty, tgt.attr) not in self.spec.fields:
+                if (xty, tgt.attr) not in self.spec.fields and (xty, tgt.attr) not in self.spec.store_templates:
                     raise Untranslatable(f'store to {xty}.{tgt.attr} at line {s.lineno}')
                 if ident(x) not in self.fresh_vars(env):
                     raise Untranslatable(f'store through `{x}`, which may alias an operand, at line {s.lineno}')
+                if (xty, tgt.attr) in self.spec.store_templates and isinstance(s, ast.Assign):
+                    tmpl, vty, rty = self.spec.store_templates[(xty, tgt.attr)]
+                    B = []
+                    t, ty = self.expr(s.value, env, B)
+                    t = self.coerce(t, ty, vty, f'store to {xty}.{tgt.attr}')
+                    r, rty = self.bind(B, tmpl.format(ident(x), t), rty)
+                    if rty != xty:
+                        raise Untranslatable(f'store template of {xty}.{tgt.attr} gives {rty}')
+                    return self.wrap(B, ('let', ident(x), lean_ty(xty), r, self.block(rest, env, k)))
+                if (xty, tgt.attr) not in self.spec.fields:
+                    raise Untranslatable(f'store to {xty}.{tgt.attr} at line {s.lineno}')
                 field, fty = self.spec.fields[(xty, tgt.attr)]
                 B = []
                 if isinstance(s, ast.AugAssign):
@@ -771,6 +949,28 @@ class FunTr:
             t, ty = self.expr(s.value.args[0], env, B)
             lty, _ = self.unify_list(env[x], f'List {paren(lean_ty(ty))}')
             return self.wrap(B, ('let', ident(x), lean_ty(lty), f'({ident(x)} ++ [{t}])', self.block(rest, {**env, x: lty}, k)))
+        if isinstance(s, ast.If) and isinstance(s.test, ast.BoolOp) and isinstance(s.test.op, ast.Or) \
+                and self.none_test(s.test.values[0], env) is not None:
+            # `if x is None or B: S else: T`  =  `if x is None: S elif B: S else: T`  (same short-circuit order; the
+            # None test then narrows `x` for B)
+            others = s.test.values[1:]
+            second = others[0] if len(others) == 1 else ast.BoolOp(op=ast.Or(), values=list(others))
+            inner = ast.If(test=second, body=s.body, orelse=s.orelse)
+            outer = ast.If(test=s.test.values[0], body=s.body, orelse=[inner])
+            for node in (second, inner, outer):
+                ast.copy_location(node, s)
+            return self.block([outer] + rest, env, k)
+        if isinstance(s, ast.If) and self.sum_test(s.test, env) is not None:
+            x, cls, positive = self.sum_test(s.test, env)
+            pat, pty = self.spec.sums[env[x]][cls]
+            b_yes, b_no = (s.body, s.orelse) if positive else (s.orelse, s.body)
+            return ('matchsum', ident(x), pat.format(ident(x)),
+                    self.block(list(b_yes) + rest, {**env, x: pty}, k),
+                    self.block(list(b_no) + rest, env, k))
+        if isinstance(s, ast.If) and self.join_ifs and getattr(self, 'no_join', None) is not s:
+            node = self.try_join(s, rest, env, k)
+            if node is not None:
+                return node
         if isinstance(s, ast.If):
             nt = self.none_test(s.test, env)
             if nt is not None:
@@ -782,7 +982,7 @@ class FunTr:
                         self.block(list(b_some) + rest, {**env, x: inner, '__narrowed__': tuple(env.get('__narrowed__', ())) + (x,)}, k),
                         self.block(list(b_none) + rest, {**env, x: 'None'}, k))
             B = []
-            c, cty = self.expr(s.test, env, B)
+            c, cty = self.truth(*self.expr(s.test, env, B))
             if cty != 'Bool':
                 raise Untranslatable(f'condition of type {cty} at line {s.lineno}')
             if c == 'true':
@@ -802,6 +1002,7 @@ class FunTr:
             for attempt in range(3):
                 stys = [env0[n] for n in svars]
                 promote = []
+                promote_opt = {}      # a variable that is None before the loop and a value after the first turn
 
                 def k_state(env_):
                     parts = []
@@ -813,6 +1014,9 @@ class FunTr:
                         elif t0 == 'Int' and t1 == 'Rat':
                             promote.append(n)
                             parts.append(ident(n))
+                        elif t0 == 'None' and t1 != 'None' and not t1.startswith('Option '):
+                            promote_opt[n] = 'Option ' + paren(t1)
+                            parts.append('none')
                         else:
                             parts.append(self.coerce(ident(n), t1, t0, f'loop variable {n}'))
                     if has_break:
@@ -825,19 +1029,25 @@ class FunTr:
                     body = self.block(list(s.body), {**env0, s.target.id: elem_ty(ity), '__fresh__': fr}, k_state)
                 finally:
                     self.in_loop -= 1
-                if not promote:
+                if not promote and not promote_opt:
                     break
                 self.n = saved_n
                 for n in set(promote):
                     env0[n] = 'Rat'
                     pre.append(n)
+                for n, t_ in promote_opt.items():
+                    env0[n] = t_
+                    pre.append((n, t_))
             else:
                 raise Untranslatable('loop variable types do not stabilise')
             st = self.fresh('st')
             sv = [(ident(n), t_) for n, t_ in zip(svars, stys)]
             node = ('for', st, it, lean_ty(elem_ty(ity)), ident(s.target.id), sv, body, self.block(rest, env0, k), has_break)
             for n in reversed(pre):
-                node = ('let', ident(n), 'Rat', f'(({ident(n)} : Int) : Rat)', node)
+                if isinstance(n, tuple):
+                    node = ('let', ident(n[0]), lean_ty(n[1]), 'none', node)
+                else:
+                    node = ('let', ident(n), 'Rat', f'(({ident(n)} : Int) : Rat)', node)
             return self.wrap(B, node)
         if isinstance(s, ast.Return):
             if self.in_loop:
@@ -864,6 +1074,10 @@ def is_pure(node):
         return is_pure(node[4])
     if k in ('if', 'matchopt'):
         return is_pure(node[2]) and is_pure(node[3])
+    if k == 'matchsum':
+        return is_pure(node[3]) and is_pure(node[4])
+    if k == 'join':
+        return is_pure(node[3]) and is_pure(node[4])
     if k == 'for':
         return is_pure(node[6]) and is_pure(node[7])
     return True
@@ -882,6 +1096,20 @@ def render(node, ind, monadic):
     if k == 'matchopt':
         return [f'{sp}match {node[1]} with', f'{sp}| some {node[1]} =>'] + render(node[2], ind + 4, monadic) + \
                [f'{sp}| none =>'] + render(node[3], ind + 4, monadic)
+    if k == 'matchsum':
+        return [f'{sp}match {node[1]} with', f'{sp}| {node[2]} =>'] + render(node[3], ind + 4, monadic) + \
+               [f'{sp}| _ =>'] + render(node[4], ind + 4, monadic)
+    if k == 'join':
+        _, st, vs, inner, rest = node
+        n = len(vs)
+        sty = ' × '.join(paren(lean_ty(t)) if ' × ' in lean_ty(t) else lean_ty(t) for _, t in vs)
+        if is_pure(inner):
+            out = [f'{sp}let {st} : {sty} := ('] + render(inner, ind + 4, False) + [f'{sp}  )']
+        else:
+            out = [f'{sp}let {st} : {sty} ← (do'] + render(inner, ind + 4, True) + [f'{sp}  )']
+        if n != 1:
+            out += [f'{sp}let {v} : {lean_ty(t)} := {st}{tuple_proj(n, i)}' for i, (v, t) in enumerate(vs)]
+        return out + render(rest, ind, monadic)
     if k == 'for':
         _, st, it, xty, x, svars, body, rest = node[:8]
         has_break = len(node) > 8 and node[8]
@@ -947,7 +1175,10 @@ def translate_function(spec, entry):
         if [a for a in argnames if a not in fixed] != [p[0] for p in params]:
             raise Untranslatable(f'{entry["py"]}: parameters {argnames}, spec {[p[0] for p in params]}')
     tr = FunTr(spec, entry['lean'], params, entry['ret'])
+    tr.join_ifs = bool(entry.get('join_ifs'))
     env = {p: t for p, t in params}
+    if entry.get('owned'):      # parameters the function stores into: callers pass a fresh object (checked at translated call sites)
+        env['__fresh__'] = frozenset(ident(p) for p in entry['owned'])
     for k, (term, ty) in entry.get('fixed', {}).items():
         env[k] = ty
         tr.consts[k] = term
@@ -971,6 +1202,8 @@ def translate_function(spec, entry):
             text = text.replace(m, paren(lean_ty(v)))
     lines = text.split('\n')
     info = {'lean': entry['lean'], 'params': params, 'ret': entry['ret'], 'pure': pure}
+    if entry.get('owned'):
+        info['owned'] = tuple(entry['owned'])
     spec.funs[entry['name']] = info
     if 'attr' in entry:
         spec.funs_by_attr[tuple(entry['attr'])] = entry['name']
